@@ -229,7 +229,7 @@ var arity = map[string][2]int{
 	parser.NodeLET: {1, 1}, parser.NodeGUARD: {1, 1}, parser.NodeLOOP: {2, 2}, parser.NodeMUTEX: {2, 2}, parser.NodeIMPORT: {2, 2},
 	parser.NodeCOMPACCESS: {1, 1}, parser.NodeRETURN: {0, 1},
 	parser.NodeKINDMATCH: {1, 1}, parser.NodeSCOPEMATCH: {1, 1}, parser.NodeSTATEMATCH: {1, 1}, parser.NodePRIORITY: {1, 1}, parser.NodeSUPPRESSES: {1, 1},
-	parser.NodeOTHERWISE: {1, 1}, parser.NodeFINALLY: {1, 1},
+	parser.NodeOTHERWISE: {1, 1}, parser.NodeFINALLY: {1, 1}, parser.NodeAS: {1, 1},
 	parser.NodeSTRING: {0, 0}, parser.NodeNUMBER: {0, 0}, parser.NodeTRUE: {0, 0}, parser.NodeFALSE: {0, 0}, parser.NodeNULL: {0, 0},
 	parser.NodeBREAK: {0, 0}, parser.NodeCONTINUE: {0, 0},
 }
@@ -289,6 +289,17 @@ func shape(n *parser.ASTNode, path string) string {
 	case parser.NodeEXCEPT:
 		if k < 1 || kindOf(k-1) != parser.NodeSTATEMENTS {
 			return fmt.Sprintf("except-children: except node does not end with statements at %s", path)
+		}
+		for i := 0; i < k-1; i++ {
+			// error type strings, then at most one `as <identifier>` or a bare identifier
+			// (`except e {`) right before the block
+			if kindOf(i) != parser.NodeSTRING && !((kindOf(i) == parser.NodeAS || kindOf(i) == parser.NodeIDENTIFIER) && i == k-2) {
+				return fmt.Sprintf("except-children: except node has a %s child at position %d of %d at %s", kindOf(i), i, k, path)
+			}
+		}
+	case parser.NodeAS:
+		if kindOf(0) != parser.NodeIDENTIFIER {
+			return fmt.Sprintf("as-children: as node child is %s, want identifier at %s", kindOf(0), path)
 		}
 	case parser.NodeOTHERWISE, parser.NodeFINALLY:
 		if kindOf(0) != parser.NodeSTATEMENTS {
